@@ -77,8 +77,15 @@ def t_not(a):
 
 
 class Eval:
-    def __init__(self, layout):
+    def __init__(self, layout, rest_kind='pointer'):
+        # rest_kind 'pointer': the rest field holds 0 or an object address (MCS): tokens are
+        #   0, the named addresses (all non-null and pairwise distinct or equal by name), other
+        # rest_kind 'version': the rest field holds an arbitrary value (Optimistic): tokens are
+        #   "equal to the named value" and other (= different from every named value); nothing is
+        #   known about 0
         self.L = layout
+        self.rest_kind = rest_kind
+        self.partial = False
 
     # ---- constructors
     def const(self, v):
@@ -91,14 +98,16 @@ class Eval:
         return W(0, 0, (0, 0), ('sym', name, nonzero))
 
     # ---- per-field helpers
-    @staticmethod
-    def _rest_eq(a, b):
+    def _rest_eq(self, a, b):
         if a is None or b is None:
             return None
         if a[0] == 'c' and b[0] == 'c':
             return a[1] == b[1]
         if a[0] == 'other' or b[0] == 'other':
             if a[0] == 'other' and b[0] == 'other':
+                return None
+            o = b if a[0] == 'other' else a
+            if o[0] == 'c' and (self.rest_kind != 'pointer' or o[1] != 0):
                 return None
             return False
         if a[0] == 'sym' and b[0] == 'sym':
@@ -108,14 +117,13 @@ class Eval:
             return False
         return None
 
-    @staticmethod
-    def _rest_nonzero(r):
+    def _rest_nonzero(self, r):
         if r is None:
             return None
         if r[0] == 'c':
             return r[1] != 0
         if r[0] == 'other':
-            return True
+            return True if self.rest_kind == 'pointer' else None
         return True if r[2] else None
 
     @staticmethod
@@ -136,6 +144,27 @@ class Eval:
         if self.L.rest_bits > 0:
             r = t_and(r, self._rest_eq(a.rest, b.rest))
         return r
+
+    def rel(self, op, a, b):
+        """order comparison of two words whose high fields are known equal"""
+        if None in (a.x, a.six, b.x, b.six) or a.s is None or b.s is None:
+            return None
+        if (a.x, a.six) != (b.x, b.six) or a.s != b.s or a.s[0] != a.s[1]:
+            return None
+        ra, rb = a.rest, b.rest
+        if ra is None or rb is None:
+            return None
+        if ra[0] == 'c' and rb[0] == 'c':
+            c = (ra[1] > rb[1]) - (ra[1] < rb[1])
+        elif ra[0] == 'sym' and rb[0] == 'sym' and ra[1] == rb[1]:
+            c = 0
+        elif ra[0] == 'other' and len(ra) > 1 and rb[0] == 'sym':
+            c = -1 if ra[1] == 'lo' else 1
+        elif rb[0] == 'other' and len(rb) > 1 and ra[0] == 'sym':
+            c = 1 if rb[1] == 'lo' else -1
+        else:
+            return None
+        return {'<': c < 0, '>': c > 0, '<=': c <= 0, '>=': c >= 0}[op]
 
     def ne0(self, a):
         r = False
@@ -238,10 +267,19 @@ class Eval:
             return None
         return W(fl(a.x, b.x), fl(a.six, b.six), cnt(a.s, b.s), rs(a.rest, b.rest))
 
-    def add(self, a, b):
+    def add(self, a, b, _neg=False):
         """a + b; counter overflow out of the S field is an explicit assumption (never happens)"""
         if a.raw is not None and b.raw is not None:
             return self.const(a.raw + b.raw)
+        if b.raw is not None and b.raw >= (1 << 63) and not _neg:
+            # adding a two's complement: subtract the magnitude instead
+            return self.sub(a, self.const((1 << 64) - b.raw), _neg=True)
+        if a.raw is not None and a.raw >= (1 << 63) and not _neg:
+            return self.sub(b, self.const((1 << 64) - a.raw), _neg=True)
+        width = self.L.sixbit - self.L.ubit
+        for w in (a, b):
+            if w.s is not None and w.raw is not None and w.s[0] > (1 << (width - 1)):
+                return W()
         # rest
         if b.rest == ('c', 0):
             rest, carry = a.rest, 0
@@ -262,9 +300,17 @@ class Eval:
         x = (a.x + b.x + c) & 1
         return W(x, six, s, rest)
 
-    def sub(self, a, b):
+    def sub(self, a, b, _neg=False):
         if a.raw is not None and b.raw is not None:
             return self.const(a.raw - b.raw)
+        if b.raw is not None and b.raw >= (1 << 63) and not _neg:
+            return self.add(a, self.const((1 << 64) - b.raw), _neg=True)
+        if b.rest is not None and b.rest[0] == 'c' and b.rest[1] != 0 and a.rest is not None and a.rest[0] == 'other' \
+                and self.rest_kind == 'version' and b.x == 0 and b.six == 0 and b.s == (0, 0):
+            # a small constant subtracted from an arbitrary non-zero low field: the no-borrow outcome is
+            # attainable (flags unchanged, low field changed); the borrow outcome is not evaluated
+            self.partial = True
+            return W(a.x, a.six, a.s, None)
         if b.rest == ('c', 0):
             rest, borrow = a.rest, 0
         elif a.rest is not None and b.rest is not None and a.rest[0] == 'c' and b.rest[0] == 'c' and a.rest[1] >= b.rest[1]:
@@ -364,6 +410,8 @@ class Eval:
             if op in ('<', '>', '<=', '>='):
                 if isinstance(a, W) and isinstance(b, W) and a.raw is not None and b.raw is not None:
                     return {'<': a.raw < b.raw, '>': a.raw > b.raw, '<=': a.raw <= b.raw, '>=': a.raw >= b.raw}[op]
+                if isinstance(a, W) and isinstance(b, W):
+                    return self.rel(op, a, b)
                 return None
             if not isinstance(a, W) or not isinstance(b, W):
                 return UNKNOWN
@@ -411,7 +459,7 @@ class Eval:
 
     def tokens_for(self, values, extra=()):
         """rest-field tokens: 0, every named low symbol / pointer occurring in `values`, other"""
-        toks = [('c', 0)]
+        toks = [('c', 0)] if self.rest_kind == 'pointer' else []
         seen = set()
 
         def walk(v):
@@ -440,7 +488,13 @@ class Eval:
             if t not in seen:
                 seen.add(t)
                 toks.append(t)
-        toks.append(('other',))
+        named = [t for t in toks if t[0] == 'sym']
+        if self.rest_kind == 'version' and len(named) == 1:
+            # one named value: split "other" into below / above it so that order comparisons are decided
+            toks.append(('other', 'lo'))
+            toks.append(('other', 'hi'))
+        else:
+            toks.append(('other',))
         return toks
 
 
